@@ -155,11 +155,11 @@ class FnBounds:
             if pred == "uge":
                 out.append(a.add(b, -1))
             elif pred == "ugt":
-                out.append(a.add(b, -1).add(Lin.const(-1)))
+                out.append(a.add(b, -1).add(Lin.const(-self._strict_gap(a.add(b, -1)))))
             elif pred == "ule":
                 out.append(b.add(a, -1))
             elif pred == "ult":
-                out.append(b.add(a, -1).add(Lin.const(-1)))
+                out.append(b.add(a, -1).add(Lin.const(-self._strict_gap(b.add(a, -1)))))
             elif pred == "eq":
                 out.append(a.add(b, -1))
                 out.append(b.add(a, -1))
@@ -175,7 +175,63 @@ class FnBounds:
                 out.append(b.add(a, -1))
             elif pred == "slt":
                 out.append(b.add(a, -1).add(Lin.const(-1)))
-        return out + self.inv_facts
+        return out + self.inv_facts + self.and_facts()
+
+    def _strict_gap(self, d):
+        """d > 0 is known; if every term of d is a multiple of g (iteration counters scaled by g, values masked with ~(g-1)) then d >= g"""
+        from math import gcd
+        if getattr(self, "_divis", None) is None:
+            self._divis = {}
+            for I in self.f.insts:
+                if I.op == "and":
+                    for c_ in (I.ops[0], I.ops[1]):
+                        if c_[0] == "c":
+                            cv = int(c_[1]) & ((1 << (I.bits or 64)) - 1)
+                            low = (cv & -cv) if cv else 0
+                            if low > 1:
+                                self._divis[("i", I.id)] = low
+        g = 0
+        for s_, c in d.items():
+            if s_ == 1:
+                g = gcd(g, abs(c))
+            else:
+                g = gcd(g, abs(c) * self._divis.get(s_, 1))
+        return g if g > 1 else 1
+
+    def and_facts(self):
+        """t = x & C (unsigned): 0 <= t <= x always, and t <= C for a non-negative constant C - whatever the path"""
+        if getattr(self, "_and_facts", None) is not None:
+            return self._and_facts
+        A, f = self.A, self.f
+        out = []
+        for I in f.insts:
+            if I.op != "and":
+                continue
+            t = A.value(("i", I.id))
+            for x, c_ in ((I.ops[0], I.ops[1]), (I.ops[1], I.ops[0])):
+                if c_[0] != "c":
+                    continue
+                xv = A.value(tuple(x))
+                out.append(xv.add(t, -1))            # x - t >= 0
+                cv = int(c_[1])
+                if 0 <= cv < (1 << 31):
+                    out.append(Lin.const(cv).add(t, -1))
+                break
+        # complementary masks of the same value: (x & C) + (x & ~C) == x
+        ands = []
+        for I in f.insts:
+            if I.op == "and":
+                for x, c_ in ((I.ops[0], I.ops[1]), (I.ops[1], I.ops[0])):
+                    if c_[0] == "c":
+                        ands.append((tuple(x), int(c_[1]) & ((1 << (I.bits or 64)) - 1), I.bits or 64, ("i", I.id)))
+                        break
+        for i, (x1, c1, w1, t1) in enumerate(ands):
+            for (x2, c2, w2, t2) in ands[i + 1:]:
+                if w1 == w2 and A.value(x1) == A.value(x2) and (c1 & c2) == 0 and (c1 | c2) == (1 << w1) - 1:
+                    e = A.value(t1).add(A.value(t2)).add(A.value(x1), -1)
+                    out += [e, e.scale(-1)]
+        self._and_facts = out
+        return out
 
     def field_invariants(self):
         """offset -> (lo, hi) for each state parameter, from INVARIANTS through the DWARF layouts"""
